@@ -135,55 +135,66 @@ def check_inventory(ctx, drv, spec_targets, spec_excluded):
     return listing, ops
 
 
-def validate_collect(ctx, trace, stage, shards=16):
-    """Trace validation that lists ALL mismatches in one pass per shard (Trace_Ownership_collect.cfg: the spec
-    skips to the next reset after a mismatch and writes each one out) - the unchanged tree carries several known
-    defects, each hit by hundreds of scenarios; one TLC restart per mismatch would take minutes."""
+SHARD_EVENTS = 12000
+
+
+def validate_part(ctx, trace, pool):
+    """Trace validation of one driver output that lists ALL mismatches in one pass (Trace_Ownership_collect.cfg: the
+    spec skips to the next reset after a mismatch and writes each one out) - the unchanged tree may carry several
+    known defects, each hit by hundreds of scenarios; one TLC restart per mismatch would take minutes.
+    The file is cut at reset events into pieces of <= SHARD_EVENTS events, validated concurrently on `pool`.
+    Returns (verdicts, n_events, n_scenarios): verdicts = [(signature, what, replay_obj)]."""
     lines = [x for x in open(trace).read().splitlines() if x.strip()]
     n = len(lines)
-    resets = [i for i, x in enumerate(lines) if '"ev":"reset"' in x]
+    resets = [i for i, x in enumerate(lines) if x.startswith('{"ev":"reset"')]
     if not resets or resets[0] != 0:
         raise vlib.Infra("trace must start with a reset event")
-    shards = max(1, min(shards, n // 400 or 1))
+    shards = max(1, (n + SHARD_EVENTS - 1) // SHARD_EVENTS)
     cuts = sorted(set([0] + [resets[min(len(resets) - 1, bisect.bisect_left(resets, i * n // shards))] for i in range(1, shards)]))
     bounds = [(a, b) for a, b in zip(cuts, cuts[1:] + [n]) if a < b]
 
     def work(k):
         a, b = bounds[k]
-        part = os.path.join(ctx.scratch, "part-%d.ndjson" % k)
-        found = os.path.join(ctx.scratch, "found-%d.ndjson" % k)
+        part = "%s.shard%d" % (trace, k)
+        found = part + ".found"
         open(part, "w").write("\n".join(lines[a:b]) + "\n")
-        if os.path.exists(found):
-            os.remove(found)
         r = ctx.tlc(TRACE, "Trace_Ownership_collect", env=dict(VERIF_TRACE=part, VERIF_FOUND=found, VERIF_START=1), workers=1,
-                    timeout=2400, heap="3g")
+                    timeout=3000, heap="3g")
         if not r.ok:
-            raise vlib.Infra("trace spec %s shard %d: %s" % (TRACE, k, r.error or r.summary()))
+            raise vlib.Infra("trace spec %s on %s: %s" % (TRACE, os.path.basename(part), r.error or r.summary()))
         out = []
         if os.path.exists(found):
             for x in open(found):
                 if x.strip():
                     o = json.loads(json.loads(x))
-                    idx = a + o["l"] - 1
-                    out.append(dict(index=idx, event=json.loads(lines[idx]), bad=o["bad"]))
+                    out.append((a + o["l"] - 1, o["bad"]))
+            os.remove(found)
         os.remove(part)
         return out
 
-    mism = []
-    with cf.ThreadPoolExecutor(max_workers=len(bounds)) as ex:
-        for out in ex.map(work, range(len(bounds))):
-            mism += out
-    ctx.cov["states"] += n
-    ctx.cov["transitions"] += n
-    ctx.stage(stage, events=n, shards=len(bounds), mismatches=len(mism))
-    return mism, n, lines
+    verdicts, badscen = [], set()
+    for out in pool.map(work, range(len(bounds))):
+        for idx, bad in out:
+            a, evs = scenario_of(lines, idx)
+            sig, what = classify(evs, bad)
+            if sig is None:
+                raise vlib.Infra("trace/model mismatch that is not a verdict about the code: %s at event %d of %s: %s"
+                                 % (what, idx, os.path.basename(trace), lines[idx][:600]))
+            badscen.add(a)
+            verdicts.append((sig, what, dict(scenario=evs[0]["scenario"], event=evs[-1], spec_says=bad)))
+    # a failed call outside a violating scenario is a coverage problem of the driver, not a verdict
+    cur = 0
+    for i, x in enumerate(lines):
+        if x.startswith('{"ev":"reset"'):
+            cur = i
+        elif ('"err":true' in x or '"panic":true' in x) and cur not in badscen:
+            raise vlib.Infra("a call failed in a scenario without violation: %s" % x[:800])
+    # scenarios without mismatch (the negative control needs a trace the specification accepts)
+    clean = [lines[a:b] for a, b in zip(resets, resets[1:] + [n]) if a not in badscen]
+    return verdicts, n, len(resets), clean
 
 
 # ------------------------------------------------------------------------------------------------ verdicts
-KIND = {"writes-caller-capacity": "writes-caller-capacity", "writes-caller-data": "writes-caller-data",
-        "writes-caller-guard": "writes-caller-guard"}
-
-
 def scenario_of(lines, idx):
     """Events of the scenario that contains line idx (reset .. idx)."""
     a = idx
@@ -234,24 +245,25 @@ def classify(evs, bad):
     return None, "%s %s" % (why, bad[1:])
 
 
-def judge(ctx, trace, stage):
-    mism, n, lines = validate_collect(ctx, trace, stage)
-    for m in mism:
-        a, evs = scenario_of(lines, m["index"])
-        sig, what = classify(evs, m["bad"])
-        if sig is None:
-            raise vlib.Infra("trace/model mismatch that is not a verdict about the code: %s at event %d: %s"
-                             % (what, m["index"], json.dumps(m["event"])[:600]))
-        ctx.violation(sig, what, dict(scenario=evs[0]["scenario"], event=m["event"], spec_says=m["bad"]))
-    # a failed call outside a violating scenario is a coverage problem of the driver, not a verdict
-    badscen = set(scenario_of(lines, m["index"])[0] for m in mism)
-    cur = 0
-    for i, x in enumerate(lines):
-        if '"ev":"reset"' in x:
-            cur = i
-        elif ('"err":true' in x or '"panic":true' in x) and cur not in badscen:
-            raise vlib.Infra("a call failed in a scenario without violation: %s" % x[:800])
-    return mism, n, lines
+def judge(ctx, traces, stage):
+    """Validate the driver outputs; every mismatch becomes a violation with a per-site signature."""
+    total = nsc = nm = 0
+    accepted = []
+    with cf.ThreadPoolExecutor(max_workers=16) as pool:
+        for tr in traces:
+            verdicts, n, k, clean = validate_part(ctx, tr, pool)
+            if len(accepted) < 400:
+                accepted += clean[:400]
+            total += n
+            nsc += k
+            nm += len(verdicts)
+            for sig, what, obj in verdicts:
+                ctx.violation(sig, what, obj)
+    ctx.cov["states"] += total
+    ctx.cov["transitions"] += total
+    ctx.cov["traces_validated_against_impl"] += nsc
+    ctx.stage(stage, events=total, scenarios=nsc, mismatches=nm)
+    return nm, total, nsc, accepted
 
 
 def corrupt(ev, rng):
@@ -260,7 +272,10 @@ def corrupt(ev, rng):
     ev = json.loads(json.dumps(ev))
     choice = rng.randrange(3)
     if choice == 0:
-        r = rng.choice(ev["regs"])
+        cand = [i for i in range(len(ev["regs"])) if not (ev["ev"] == "scr" and i + 1 in ev["R"])]   # what the caller wrote itself is its to change
+        if not cand:
+            return None
+        r = ev["regs"][rng.choice(cand)]
         part = rng.choice(["d", "s", "g"])
         r[part] = r[part] + "00"
         ev["_corrupted"] = "regs.%s" % part
@@ -290,19 +305,23 @@ def run(ctx):
     def fault(item):
         f, inv = item
         r = ctx.tlc("MC_Ownership", "MC_Ownership_fault_" + f, workers=1)
-        if r.invariant != inv:
+        if r.invariant not in inv:
             raise vlib.Infra("fault class %s is NOT exposed by any schedule of 4 steps (TLC: %s) - the plan would be blind to it"
                              % (f, r.summary()))
-        ctx.stage("M:fault " + f, exposed_by=inv, schedule_length=r.trace_len - 1)
+        ctx.stage("M:fault " + f, exposed_by=r.invariant, schedule_length=r.trace_len - 1)
 
-    with cf.ThreadPoolExecutor(max_workers=8) as ex:
-        jobs = [ex.submit(ctx.model_check, "MC_Ownership", "MC_Ownership", workers=2, heap="3g",
-                          stage="M:Ownership, correct library, 1 region per role, 6 steps"),
-                ex.submit(ctx.model_check, "MC_Ownership", "MC_Ownership_wide", workers=2, heap="3g",
-                          stage="M:Ownership, correct library, 2 regions per role, 5 steps")]
-        jobs += [ex.submit(fault, it) for it in FAULTS.items()]
-        for j in jobs:
-            j.result()
+    if not ctx.replay:
+        jobs = [(ctx.model_check, ("MC_Ownership", "MC_Ownership"),
+                 dict(workers=2, heap="3g", stage="M:Ownership, correct library, 1 region per role, 6 steps"))]
+        if ctx.thorough:   # the model does not depend on the code: the per-class adequacy runs belong to the thorough tier
+            jobs.append((ctx.model_check, ("MC_Ownership", "MC_Ownership_wide"),
+                         dict(workers=2, heap="3g", stage="M:Ownership, correct library, 2 regions per role, 5 steps")))
+            jobs += [(fault, ((f, (inv,)),), {}) for f, inv in FAULTS.items()]
+        else:
+            jobs.append((fault, (("all", ("NoForeignWrite", "LibraryValuesStable")),), {}))
+        with cf.ThreadPoolExecutor(max_workers=4) as ex:
+            for j in [ex.submit(fn, *a, **kw) for fn, a, kw in jobs]:
+                j.result()
     drv = ctx.go_build("c19")
     for f in os.listdir(os.path.join(vlib.VERIF, "evidence", "replays")):      # stale replay files of earlier runs of this check
         if f.startswith("C19-%d-" % ctx.seed) and not ctx.replay:
@@ -310,7 +329,7 @@ def run(ctx):
     if ctx.replay:
         trace = os.path.join(ctx.scratch, "replay.ndjson")
         ctx.run([drv, "-out", trace, "-replay", ctx.replay])
-        judge(ctx, trace, "T:replay")
+        judge(ctx, [trace], "T:replay")
         return
     # ---------------- (R) plan + inventory
     steps = 6 if ctx.thorough else 4
@@ -319,37 +338,60 @@ def run(ctx):
     listing, table_ops = check_inventory(ctx, drv, spec_targets, spec_excluded)
     ctx.log("plan: %d maximal schedules (<= %d steps)" % (nplan, steps))
     trace = os.path.join(ctx.scratch, "c19.ndjson")
-    limits = ["-max1", "400", "-max2", "40"] if ctx.thorough else ["-max1", "20", "-max2", "3"]
+    # per (target, layout): all schedules for cheap targets (thorough: a seeded sample of 150 of the up to 383), fewer for
+    # targets whose steps cost milliseconds (RSA, ML-DSA, streaming) or tens of milliseconds (SLH-DSA)
+    limits = ["-max0", "150", "-max1", "60", "-max2", "10"] if ctx.thorough else ["-max1", "20", "-max2", "3"]
     nproc = 12
 
     def drive(i):
         out = "%s.%d" % (trace, i)
-        r = ctx.run([drv, "-plan", plan, "-out", out, "-cover", out + ".cover", "-part", str(i), "-of", str(nproc)] + limits, timeout=2400)
-        return out, r.stdout.strip()
+        ctx.run([drv, "-plan", plan, "-out", out, "-cover", out + ".cover", "-part", str(i), "-of", str(nproc)] + limits, timeout=3000)
+        return out
 
+    with cf.ThreadPoolExecutor(max_workers=nproc) as ex:
+        parts = list(ex.map(drive, range(nproc)))
     executed = set()
-    with cf.ThreadPoolExecutor(max_workers=nproc) as ex, open(trace, "w") as allout:
-        for out, msg in ex.map(drive, range(nproc)):
-            allout.write(open(out).read())
-            executed |= set(x.strip() for x in open(out + ".cover") if x.strip())
-            os.remove(out)
+    for out in parts:
+        executed |= set(x.strip() for x in open(out + ".cover") if x.strip())
     ctx.log("driver: %d operations of the inventory executed" % len(executed))
     never = sorted(table_ops - executed)
     if never:
         raise vlib.Infra("operations of the inventory table that no scenario executed: %s" % never[:20])
-    mism, n, lines = judge(ctx, trace, "T:schedules on real objects")
-    nsc = sum(1 for x in lines if '"ev":"reset"' in x)
-    ctx.cov["traces_validated_against_impl"] += nsc
+    nm, n, nsc, accepted = judge(ctx, parts, "T:schedules on real objects")
     ctx.stage("R:execution", targets=len(listing), scenarios=nsc, events=n)
-    for k in (1, len(lines) // 3, 2 * len(lines) // 3):
-        ctx.sample(json.loads(lines[k]))
-    ctx.negative_control(TRACE, trace, corrupt, reset="reset")
+    ctx.log("validated %d events of %d scenarios (%d targets); %d mismatches" % (n, nsc, len(listing), nm))
+    if not accepted:
+        raise vlib.Infra("no scenario was accepted by the specification: nothing to run the negative control on")
+    for sc in (accepted[0], accepted[len(accepted) // 2]):
+        ctx.sample(json.loads(sc[0])["scenario"])
+        ctx.sample(json.loads(sc[min(2, len(sc) - 1)]))
+    nc = os.path.join(ctx.scratch, "accepted.ndjson")
+    open(nc, "w").write("\n".join(x for sc in accepted for x in sc) + "\n")
+    ctx.negative_control(TRACE, nc, corrupt, reset="reset")
 
 
 MANIFEST = dict(
     category="model_checking",
-    text="(draft)",
-    note="(draft)",
-    technique="TLA+ ownership model + TLC-enumerated mutation schedules replayed into real code + TLC trace validation",
+    text=("Ownership.tla models memory as cells, byte slices as regions (bytes inside len, spare capacity, guard zones), the "
+          "library object as the cells it references, and the actions New / Use / Acc / Scribble; a Faults constant names the "
+          "ways a library can deviate (stores-input, returns-internal, writes-caller-capacity, writes-caller-data, returns-input). "
+          "TLC proves NoForeignWrite, LibraryValuesStable and NoSharing for the library the property demands over every "
+          "schedule of <= 6 steps, and shows that each fault class is exposed by a schedule of <= 4 steps. Plan_Ownership writes "
+          "out every maximal schedule per shape class of the inventory table (OwnershipInventory.tla: 414 operation kinds "
+          "covering 394 of the 398 public operations that exchange []byte / secretdata.Bytes / byte-carrying protos, which a "
+          "go/types extractor lists from the current tree; 4 are excluded with reasons; a new operation missing from the "
+          "table is exit 2). The driver executes every schedule on real objects in two buffer layouts; TLC (Trace_Ownership, "
+          "stepping Ownership with Faults = {}) judges every region's data / spare capacity / guards, result aliasing (address "
+          "ranges) and the object's observable value (Equal vs pristine copy, accessors, primitives built before and after) "
+          "after every step. quick: ~10.7k scenarios / ~97k events; thorough: 6-step schedules, ~10x."),
+    note=("Bounded: one object per scenario, schedules of <= 4 (quick) / <= 6 (thorough) steps; thorough samples 150 of the up "
+          "to 383 six-step schedules per (target, layout) by seed. Factory targets cover every primitive kind, every prefix type "
+          "incl. LEGACY and the legacy adapters (custom key managers), but one or two parameter sets per key type. Stateful "
+          "objects (noncebased Writer/Reader, Polyval) are observed against a lock-step twin fed with copies. Not covered: "
+          "*big.Int values, buffers the library passes to caller-implemented io.Reader/io.Writer, JWT primitives (their key "
+          "classes and byte-exchanging helpers are covered). Verdict kinds: stores-input, returns-internal, "
+          "writes-caller-capacity, writes-caller-data/guard, returns-input; one signature per call site."),
+    technique=("TLA+ ownership model + TLC exhaustive model checking (incl. fault-class adequacy) + TLC-enumerated mutation "
+               "schedules replayed into real code + TLC trace validation; inventory extracted with go/types and diffed against the spec table"),
     design_ref="DESIGN.md section 6, C19",
 )
